@@ -334,3 +334,26 @@ Theorem C20_unrelate_withdraws_exactly_reachable : forall (pool : list intr) ops
        linked (run_state init ops) a b = true /\ ~ ((a = x \/ a = y) /\ (b = x \/ b = y))).
 Proof. exact unrelate_withdraws_exactly_reachable. Qed.
 Print Assumptions C20_unrelate_withdraws_exactly_reachable.
+
+(* ---- symmetry in every state reached without `remove`: any sequence of adds, (re-)registrations with recorded relate /
+   unrelate relations, relate / unrelate of any number of entries, reads; and no entry is linked to itself *)
+Require Import Verif.Proofs.C20_sym.
+
+Theorem C20_relations_symmetric_reachable : forall (pool : list intr) ops a b,
+  (forall x y, In x pool -> In y pool -> cont_eq x y = true -> x = y) ->
+  Forall (op_in (fun t => In t pool)) ops -> Forall no_remove ops ->
+  In a pool -> In b pool ->
+  linked (run_state init ops) a b = linked (run_state init ops) b a /\ linked (run_state init ops) a a = false.
+Proof. exact relations_symmetric_reachable. Qed.
+Print Assumptions C20_relations_symmetric_reachable.
+
+Theorem C20_related_symmetric_reachable : forall (pool : list intr) ops a b la lb,
+  (forall x y, In x pool -> In y pool -> cont_eq x y = true -> x = y) ->
+  Forall (op_in (fun t => In t pool)) ops -> Forall no_remove ops ->
+  In a pool -> In b pool ->
+  lookup (run_state init ops) (icat a) (idisc a) = Some a ->
+  lookup (run_state init ops) (icat b) (idisc b) = Some b ->
+  related (run_state init ops) a = Ok la -> related (run_state init ops) b = Ok lb ->
+  (In b la <-> In a lb).
+Proof. exact related_symmetric_reachable. Qed.
+Print Assumptions C20_related_symmetric_reachable.
